@@ -288,3 +288,96 @@ Proof.
     + rewrite K'. apply cancel_task_frame.
     + eapply mono_trans; [apply cancel_task_mono|exact M'].
 Qed.
+
+(** * grant *)
+Lemma grant_spec : forall fuel s acc s' os, wf0 s -> grant fuel s acc = (s', os) ->
+  wf0 s' /\ c_K s' = c_K s /\
+  (length (sem_wait s) < fuel -> sem_free s' = 0 \/ sem_wait s' = []) /\
+  gmono (tasks s) (tasks s') /\
+  exists ex, os = acc ++ ex /\
+    forall o, In o ex -> exists k t t', o = OStart (t_params t) (t_cancelled t) /\
+      nth_error (tasks s) k = Some t /\ nth_error (tasks s') k = Some t' /\
+      t_st t = TWaiting /\ t_builtin t = false /\ t_st t' = TRunning /\ t_params t' = t_params t.
+Proof.
+  induction fuel as [|f IH]; intros s acc s' os W H.
+  - cbn in H. injection H as <- <-. split; auto. split; auto. split; [lia|].
+    split; [intros k t E; exists t; split; auto; apply gstep_refl|].
+    exists []. rewrite app_nil_r. split; auto. intros o [].
+  - cbn in H.
+    assert (Base : (s, acc) = (s', os) -> (sem_free s = 0 \/ sem_wait s = []) ->
+      wf0 s' /\ c_K s' = c_K s /\
+      (length (sem_wait s) < S f -> sem_free s' = 0 \/ sem_wait s' = []) /\
+      gmono (tasks s) (tasks s') /\
+      exists ex, os = acc ++ ex /\
+        forall o, In o ex -> exists k t t', o = OStart (t_params t) (t_cancelled t) /\
+          nth_error (tasks s) k = Some t /\ nth_error (tasks s') k = Some t' /\
+          t_st t = TWaiting /\ t_builtin t = false /\ t_st t' = TRunning /\ t_params t' = t_params t).
+    { intros [= <- <-] D. split; auto. split; auto. split; auto.
+      split; [intros k t E; exists t; split; auto; apply gstep_refl|].
+      exists []. rewrite app_nil_r. split; auto. intros o []. }
+    destruct (sem_wait s) as [|k r] eqn:Q; [apply Base; auto|].
+    destruct (sem_free s) as [|fr] eqn:F; [apply Base; auto|].
+    destruct (proj1 (wf_wait _ _ _ _ W k)) as (t & E & St); [rewrite Q; left; auto|].
+    rewrite E in H.
+    pose proof (wf_nodup _ _ _ _ W) as ND. rewrite Q in ND. inversion ND as [|? ? NI ND']; subst.
+    set (st' := if t_builtin t then TAtHandled (ORes []) else TRunning).
+    set (s1 := s <| sem_wait := r |> <| sem_free := fr |>
+                 <| tasks ::= upd_nth k (fun t => t <| t_st := st' |>) |>).
+    assert (W1 : wf0 s1).
+    { unfold wf0, s1. cbn. eapply wfp_upd; try exact W; try exact E; cbn; auto.
+      - unfold holds. cbn. rewrite St, F. unfold st'. destruct (t_builtin t); cbn; lia.
+      - intros j. rewrite Q. destruct (Nat.eqb_spec j k) as [->|N]; cbn.
+        + split; [tauto|]. unfold st'. destruct (t_builtin t); discriminate.
+        + split; [auto|]. intros [->|I]; [congruence|auto].
+      - unfold st'. destruct (t_builtin t); discriminate.
+      - unfold st'. intros ->. discriminate.
+      - destruct (wf_pre _ _ _ _ W _ _ E) as [P|P]; [auto|congruence]. }
+    assert (G1 : gmono (tasks s) (tasks s1)).
+    { unfold s1. cbn. intros j x Ex. rewrite nth_error_upd_nth. destruct (Nat.eqb_spec k j) as [->|N].
+      - rewrite Ex. cbn. eexists; split; eauto.
+        assert (x = t) by congruence. subst x.
+        split; [repeat split|]. cbn. split; [reflexivity|]. right. split; [exact St|reflexivity].
+      - exists x. split; auto. apply gstep_refl. }
+    assert (Hrec : exists acc1, grant f s1 acc1 = (s', os) /\
+               (acc1 = acc \/ (t_builtin t = false /\ acc1 = acc ++ [OStart (t_params t) (t_cancelled t)]))).
+    { unfold s1, st'. destruct (t_builtin t); eexists; split; try exact H; auto. }
+    destruct Hrec as (acc1 & H1 & Hacc).
+    destruct (IH _ _ _ _ W1 H1) as (W' & K' & T' & G' & ex & Eos & Hex).
+    split; auto. split; [rewrite K'; reflexivity|].
+    split; [intros L; apply T'; unfold s1; cbn; cbn in L; lia|].
+    assert (GG : gmono (tasks s) (tasks s')).
+    { intros j x Ex. destruct (G1 _ _ Ex) as (x1 & Ex1 & S1). destruct (G' _ _ Ex1) as (x2 & Ex2 & S2).
+      exists x2. split; auto. eapply gstep_trans; eauto. }
+    split; auto.
+    assert (Lift : forall o, In o ex -> exists k t t', o = OStart (t_params t) (t_cancelled t) /\
+      nth_error (tasks s) k = Some t /\ nth_error (tasks s') k = Some t' /\
+      t_st t = TWaiting /\ t_builtin t = false /\ t_st t' = TRunning /\ t_params t' = t_params t).
+    { intros o Io. destruct (Hex _ Io) as (j & x1 & x' & -> & Ex1 & Ex' & Sx1 & Bx1 & Sx' & Px').
+      (* the task was already waiting in s *)
+      assert (exists x, nth_error (tasks s) j = Some x) as [x Ex].
+      { destruct (nth_error (tasks s) j) eqn:N; eauto.
+        exfalso. apply nth_error_None in N.
+        assert (nth_error (tasks s1) j = None).
+        { apply nth_error_None. unfold s1. cbn. rewrite upd_nth_length. auto. }
+        congruence. }
+      destruct (G1 _ _ Ex) as (y & Ey & (SS & CC & RR)).
+      assert (y = x1) by congruence. subst y.
+      exists j, x, x'. destruct SS as (_ & _ & _ & P & _ & _ & B).
+      rewrite P, CC. split; auto. split; auto. split; auto.
+      split; [destruct RR as [RR|[RR RR']]; [congruence|auto]|].
+      split; [congruence|]. split; auto. congruence. }
+    destruct Hacc as [->|[Bt ->]].
+    + exists ex. split; auto.
+    + exists (OStart (t_params t) (t_cancelled t) :: ex). split; [rewrite Eos, <- app_assoc; reflexivity|].
+      intros o [<-|Io]; [|auto].
+      destruct (G1 _ _ E) as (t1 & E1 & (SS1 & CC1 & RR1)).
+      destruct (G' _ _ E1) as (t2 & E2 & (SS2 & CC2 & RR2)).
+      exists k, t, t2. split; auto. split; auto. split; auto. split; auto. split; auto.
+      assert (S1 : t_st t1 = TRunning).
+      { destruct RR1 as [RR1|[_ RR1]]; [|rewrite RR1, Bt; reflexivity].
+        exfalso. unfold s1 in E1. cbn in E1. erewrite nth_error_upd_nth_eq in E1 by eauto.
+        injection E1 as <-. cbn in RR1. unfold st' in RR1. rewrite Bt, St in RR1. discriminate. }
+      split.
+      * destruct RR2 as [RR2|[RR2 _]]; congruence.
+      * destruct SS1 as (_ & _ & _ & P1 & _). destruct SS2 as (_ & _ & _ & P2 & _). congruence.
+Qed.
